@@ -23,6 +23,10 @@ from .. import common
 from ..common import Result, Violation
 
 
+class _Polluted(Exception):
+    pass
+
+
 class Fault:
     def __init__(self):
         self.reset()
@@ -43,6 +47,7 @@ class Fault:
 
 
 FAULT = Fault()
+KEEP = []  # generators / coroutines deliberately left suspended by operations
 _E = None
 
 
@@ -152,6 +157,8 @@ def E():
             "h.FAULT.hit('modbody')\n"
             "def g(x: Float[Duck, 'a'], y: Float[Duck, 'a']):\n    return 1\n"
         )
+    with open(os.path.join(d, "c12broken.py"), "w") as fh:
+        fh.write("def broken(:\n    pass\n")
     e["world"] = d
     import atexit
 
@@ -301,6 +308,60 @@ def _ops():
 
     ops["hook_import"] = hook_op
 
+    def hook_broken_op():
+        sys.path.insert(0, e["world"])
+        try:
+            hook = jaxtyping.install_import_hook("c12broken", "typeguard.typechecked")
+            try:
+                importlib.invalidate_caches()
+                try:
+                    importlib.import_module("c12broken")
+                    r = "imported"
+                except SyntaxError:
+                    r = "SyntaxError"
+            finally:
+                hook.uninstall()
+                sys.modules.pop("c12broken", None)
+        finally:
+            sys.path.remove(e["world"])
+        return r
+
+    ops["hook_import_broken_module"] = hook_broken_op
+
+    def gen_suspended():
+        import typeguard
+
+        @jaxtyped(typechecker=typeguard.typechecked)
+        def gen(x: e["F"]["a"]):
+            yield x.shape
+            yield c(Duck((9,)), e["F"]["a"])
+
+        g = gen(Duck((2,)))
+        first = next(g)
+        KEEP.append(g)  # started, suspended, still referenced while later activity happens
+        return first
+
+    ops["generator_left_suspended"] = gen_suspended
+
+    def coro_suspended():
+        import typeguard
+
+        class Suspend:
+            def __await__(self):
+                yield "suspended"
+
+        @jaxtyped(typechecker=typeguard.typechecked)
+        async def co(x: e["F"]["a"]):
+            await Suspend()
+            return c(Duck((9,)), e["F"]["a"])
+
+        k = co(Duck((2,)))
+        r = k.send(None)
+        KEEP.append(k)
+        return r
+
+    ops["coroutine_left_suspended"] = coro_suspended
+
     def config_op():
         config.update("jaxtyping_disable", True)
         try:
@@ -381,16 +442,30 @@ def reset():
     import jaxtyping
 
     e = E()
+    for k in KEEP:
+        try:
+            k.close()
+        except BaseException:  # noqa: BLE001
+            pass
+    del KEEP[:]
     try:
         from jaxtyping import _storage
 
         st = getattr(_storage._shape_storage, "memo_stack", None)
         if st:
             del st[:]
-        _storage.clear_treepath_memo()
-        _storage.clear_treeflatten_memo()
     except Exception:
         pass
+    for fn in ("clear_treepath_memo", "clear_treeflatten_memo"):
+        try:
+            getattr(_storage, fn)()
+        except Exception:
+            pass
+    for name, val in (("_treeflatten_storage", False), ("_treepath_storage", None)):
+        try:
+            getattr(_storage, name).value = val
+        except Exception:
+            pass
     for cls in [e["Vec"], e["CA"], e["CAB"]] + list(e["F"].values()):
         if "_skip_instancecheck" in vars(cls):
             try:
@@ -452,11 +527,25 @@ def _shard(job):
             viols.append(Violation(key=key, what=f"after {kind} {hist}{' with ' + str(fault) if fault else ''} (outcomes {outcomes}) the probe battery changed: {diff[:4]}", replay=dict(history=list(hist), fault=list(fault) if fault else None)).to_json())
             reset()
             if battery() != pristine:
-                raise common.HarnessError(f"could not restore a pristine state after {hist} {fault}")
+                # the state cannot be repaired from outside (the violation itself is already
+                # recorded): stop this worker's remaining cases instead of judging them from a
+                # polluted state
+                raise _Polluted(f"pristine state could not be restored after {hist} {fault}")
             return False
         return True
 
+    aborted = None
     for item in job["work"]:
+        try:
+            _one_item(item, run_op, after, stats, samples)
+        except _Polluted as e:
+            aborted = str(e)
+            break
+    return stats, viols, samples, names, aborted
+
+
+def _one_item(item, run_op, after, stats, samples):
+    if True:
         if item[0] == "hist":
             hist = item[1]
             FAULT.reset()
@@ -474,7 +563,7 @@ def _shard(job):
             npts = len(labels)
             stats["fault_points"] += npts
             if not after("counting run of", (n,)):
-                continue
+                return
             for i in range(1, npts + 1):
                 for exc in ("Exception", "BaseException"):
                     FAULT.reset(target=i, exc=exc)
@@ -484,7 +573,6 @@ def _shard(job):
                     ok = after("faulted run of", (n,), fault=(i, labels[i - 1], exc), outcomes=[out])
                     if ok and len(samples) < 3 and i == 2:
                         samples.append(dict(op=n, fault_point=i, label=labels[i - 1], exc=exc, outcome=out))
-    return stats, viols, samples, names
 
 
 def op_names():
@@ -492,6 +580,7 @@ def op_names():
         "arr_pass", "arr_fail", "arr_pass_ctx", "arr_fail_ctx", "arr_unbound_symbolic", "arr_q_misuse", "pt_pass", "pt_fail_leaf0", "pt_fail_leaf2",
         "pt_custom_node", "pt_leaf_instancecheck", "pt_nested", "pt_q", "pt_bare", "call_ok", "call_bad_param", "call_bad_param_repr", "call_bad_return",
         "call_symbolic_fn", "decorate_new", "decorate_old", "decorate_old_generator", "dataclass", "pickle_copy", "hook_import", "config_toggle", "name_format",
+        "hook_import_broken_module", "generator_left_suspended", "coroutine_left_suspended",
     ]  # fmt: skip
 
 
@@ -511,7 +600,9 @@ def run(ctx):
     stats = common.merge_counts(o[0] for o in outs)
     viols = [Violation(**v) for o in outs for v in o[1]]
     samples = [s for o in outs for s in o[2]][:4]
+    aborted = [o[4] for o in outs if o[4]]
     cov = dict(
+        shards_aborted_after_unrepairable_violation=len(aborted),
         states=stats["batteries"],
         transitions=stats["ops_executed"] + stats["faulted_runs"],
         traces_validated_against_impl=stats["histories"] + stats["faulted_runs"],
@@ -521,7 +612,7 @@ def run(ctx):
         operations=len(names),
         fault_points=stats["fault_points"],
         faulted_runs=stats["faulted_runs"],
-        exhaustive=True,
+        exhaustive=not aborted,
         bounds=f"all histories of length <= {L} over {len(names)} operations; every operation under one injected fault (Exception, BaseException) at every call-out point",
     )
     return Result(level="model_checking", coverage=cov, violations=viols, assumptions=["call-outs are the harness-owned objects (shape/dtype/repr, leaf __instancecheck__, custom flatten, symbolic functions, body, typechecker, module body)", "battery compared with the same battery in the pristine process"])
